@@ -77,12 +77,14 @@ def bump_write(path: str, text: str) -> None:
 # ---------------------------------------------------------------------------------------
 # a small family of modules with *visible* variants (types/values exported to importers) and *invisible* ones (a body constant)
 
-VISIBLE = {'ma': 3, 'mb': 2, 'mc': 1, 'md': 1}   # number of visible variants per module
+VISIBLE = {'ma': 3, 'mb': 2, 'mc': 1, 'md': 1, 'me': 3, 'mf': 3, 'mg': 1}   # number of visible variants per module
 GRAPHS = {
 	'pair': {'ma': [], 'mb': ['ma']},
 	'chain': {'ma': [], 'mb': ['ma'], 'mc': ['mb']},
 	'diamond': {'ma': [], 'mb': ['ma'], 'md': ['ma', 'mb']},
 	'chain4': {'ma': [], 'mb': ['ma'], 'mc': ['mb'], 'md': ['mc', 'ma']},
+	# me and mf have the same interface (for one variant their texts are identical): an importer of both can see their contents exchanged
+	'twins': {'me': [], 'mf': [], 'mg': ['me', 'mf']},
 }
 
 
@@ -103,6 +105,11 @@ def module_source(name: str, pkg: dict, visible: int, invisible: int, graph: dic
 			"\tww = wide(n, 'a', 1.0, True, 2, 'b', [n], {'k': n}, 3, 'c', 2.0)\n\twl = [ww]\n\tdd = deep(n)\n\tde = dd['k']\n")
 	if name == 'mc':
 		return imp('mb', 'TOP') + f'\ndef g(n: int) -> None:\n\tc = {invisible}\n\tz = TOP\n\tzz = [z]\n'
+	if name in ('me', 'mf'):
+		t, e = [('int', 'n + 1'), ('str', 'str(n)'), ('float', 'float(n)')][visible]
+		return f'class Q:\n\tdef val(self) -> {t}:\n\t\tn = {invisible}\n\t\treturn {e}\n\ndef give(n: int) -> {t}:\n\tc = {invisible}\n\treturn {e}\n'
+	if name == 'mg':
+		return imp('me', 'give') + imp('mf', 'Q') + f'\ndef both(n: int) -> None:\n\tc = {invisible}\n\tx = give(n)\n\tq = Q()\n\ty = q.val()\n\tz = [x]\n'
 	if name == 'md':
 		deps = graph['md']
 		lines = ''
